@@ -177,7 +177,7 @@ PROPS["C15"] = dict(
                "exact for %a). Numeric scan specifications are those valid in both printf and scanf (no precision).",
     quick=[("asan", 16, 1500), ("plain", 8, 1500)],
     thorough=[("asan", 16, 20000), ("plain", 16, 40000), ("memcheck", 8, 75, {"budget": 900})],
-    floors={"quick": {"fixed_roundtrips": 250, "record_wise_sequences": 500, "sequences_with_separators": 100, "nonzero_start_positions": 100,
+    floors={"quick": {"fixed_roundtrips": 250, "separators_with_words_or_literal_percent": 500, "record_wise_sequences": 500, "sequences_with_separators": 100, "nonzero_start_positions": 100,
                       "file_reopen": 50, "file_seek_back": 50, "int_numeric_spec_int_range_negative": 10,
                       "float_numeric_spec": 50, "int_numeric_spec_full_range": 50}},
     rule="case = 1-5 generated values written with one format and read back with the same format, from a String at "
@@ -394,7 +394,7 @@ PROPS["C20"] = dict(
     floors={"quick": {"closed_file_probes": 200, "reads_past_the_end": 50, "zero_byte_writes": 20,
                       "writes_larger_than_a_stdio_buffer": 20, "seeks_from_start": 50, "seeks_from_current": 50,
                       "seeks_from_end": 50, "reopens_while_open": 50, "dels_of_open_files": 20, "with_blocks": 1,
-                      "text_roundtrips": 1, "record_wise_reads": 6, "stack_file_lifecycles": 3, "append_opens": 50, "formatted_writes": 50}},
+                      "text_roundtrips": 1, "record_wise_reads": 6, "stack_file_lifecycles": 3, "with_blocks_on_files_that_are_not_open": 4, "append_opens": 50, "formatted_writes": 50}},
     rule="case = one File object driven through 20-80 (thorough: up to 140) random stream operations; distinct = hash "
          "of the operation list; non-trivial = at least 20 operations",
     assumptions=["one File object per case, one file on disk per shard", "offsets stay within the file"],
